@@ -144,6 +144,79 @@ def _run_shard_in_child(modname, spec):
     return res
 
 
+RUN_ID = f"{os.getpid()}"
+INFLIGHT_DIR = os.path.join(VERIF, "out", "inflight")
+
+
+class inflight:
+    """`with inflight(case, seconds):` - a hard wall-clock ceiling for one case whose body may get stuck inside C code,
+    where no Python-level timer or signal handler can interrupt it (e.g. 10**99999999).  A watchdog thread of the
+    interpreter (faulthandler) ends the worker process when the ceiling is passed; the case was written to a file
+    first, and the parent turns it into a reported failure instead of a hang of the whole check."""
+
+    _handles = {}
+    _armed_at = -1e9
+
+    def __init__(self, case, seconds):
+        self.case, self.seconds = case, seconds
+
+    @classmethod
+    def _handle(cls):
+        pid = os.getpid()
+        h = cls._handles.get(pid)
+        if h is None:
+            os.makedirs(INFLIGHT_DIR, exist_ok=True)
+            path = os.path.join(INFLIGHT_DIR, f"{os.environ.get('VERIF_RUN_ID', RUN_ID)}-{pid}.json")
+            cls._handles.clear()          # (handles inherited from the parent by fork belong to the parent)
+            h = cls._handles[pid] = (open(path, "w", encoding="utf-8"), open(os.devnull, "w"))
+        return h
+
+    def __enter__(self):
+        import faulthandler
+        f, log = self._handle()
+        f.seek(0)
+        f.write(json.dumps({"case": self.case, "seconds": self.seconds}, default=repr))
+        f.truncate()
+        f.flush()
+        # (arming starts a watchdog thread, which is too dear to do per case: the deadline is renewed at most every
+        # ten seconds, so a stuck call is ended between seconds-10 and seconds after it began; _run_shard disarms)
+        now = time.monotonic()
+        if now - inflight._armed_at > 10:
+            faulthandler.dump_traceback_later(self.seconds, exit=True, file=log)
+            inflight._armed_at = now
+        return self
+
+    def __exit__(self, *a):
+        f, _ = self._handle()
+        f.seek(0)
+        f.truncate()          # empty file: nothing in flight
+        f.flush()
+        return False
+
+
+def _collect_inflight():
+    """Cases that were being examined by workers that are gone (killed by the watchdog, or crashed)."""
+    out = []
+    rid = os.environ.get("VERIF_RUN_ID", RUN_ID)
+    if not os.path.isdir(INFLIGHT_DIR):
+        return out
+    for name in sorted(os.listdir(INFLIGHT_DIR)):
+        if name.startswith(rid + "-") and name.endswith(".json"):
+            full = os.path.join(INFLIGHT_DIR, name)
+            try:
+                with open(full, encoding="utf-8") as f:
+                    text = f.read()
+                if text.strip():
+                    out.append(json.loads(text))
+            except Exception:  # noqa: BLE001
+                pass
+            try:
+                os.unlink(full)
+            except OSError:
+                pass
+    return out
+
+
 def _limit_memory():
     """Address-space ceiling per shard worker: a runaway case becomes a MemoryError (harness error, exit 2) in that
     worker instead of exhausting the machine."""
@@ -206,6 +279,9 @@ def _run_shard(args, in_child=False):
         try:
             mod.run_shard(spec, shard)
         finally:
+            import faulthandler
+            faulthandler.cancel_dump_traceback_later()
+            inflight._armed_at = -1e9
             _coverage_dump(cov, modname, spec)
         return ("ok", shard.to_dict())
     except BaseException:  # noqa: BLE001 - reported as harness error by the parent
@@ -307,6 +383,7 @@ def main(argv=None) -> int:
         print("usage: check <PROPERTY> [--tier quick|thorough] [--replay PATH]", file=sys.stderr)
         return 2
     prop = argv.pop(0).upper()
+    os.environ.setdefault("VERIF_RUN_ID", RUN_ID)
     tier = os.environ.get("VERIF_TIER", "quick")
     replay = None
     while argv:
@@ -400,9 +477,44 @@ def _main(prop, tier, seed, replay, t0) -> int:
         ctx = mp.get_context("fork")
         try:
             with ProcessPoolExecutor(nproc, mp_context=ctx, initializer=_limit_memory) as pool:
-                results = list(pool.map(_run_shard, [(modname, s) for s in specs], chunksize=1))
+                # last line of defence against a run that never ends (a library call stuck in C code in a check that
+                # has no per-case watchdog): after VERIF_CHECK_TIMEOUT seconds the workers are killed and the run
+                # ends as a harness error (exit 2) - inconclusive, never a verdict
+                limit = float(os.environ.get("VERIF_CHECK_TIMEOUT", "2700" if tier == "quick" else "21600"))
+
+                def _give_up():
+                    print(f"HARNESS-ERROR property={prop}: no result after {limit:.0f} s of wall clock; workers killed, nothing is concluded", flush=True)
+                    for pr in list(getattr(pool, "_processes", {}).values()):
+                        try:
+                            pr.kill()
+                        except Exception:  # noqa: BLE001
+                            pass
+                    os._exit(2)
+                import threading
+                timer = threading.Timer(limit, _give_up)
+                timer.daemon = True
+                timer.start()
+                try:
+                    results = list(pool.map(_run_shard, [(modname, s) for s in specs], chunksize=1))
+                finally:
+                    timer.cancel()
         except BrokenProcessPool as e:
-            raise HarnessError(f"a shard worker died ({e}); nothing is concluded from this run") from e
+            stuck = _collect_inflight()
+            if not stuck:
+                raise HarnessError(f"a shard worker died ({e}); nothing is concluded from this run") from e
+            # workers were ended by the per-case watchdog (or crashed) while examining these cases: that is a
+            # result about the code under test, reported like any other failure (the other shards' counts are lost)
+            sh_ = Shard()
+            for item in stuck:
+                case = item["case"]
+                sh_.case(key=h64(case), nontrivial=True, classes={"stuck-or-crashed"}, sample=None)
+                sh_.fail("stuck-or-crashed", case,
+                         {"bucket": "stuck-or-crashed", "what": f"a worker had to be ended after {item.get('seconds')} s of wall clock inside one "
+                          f"call into the library (no Python-level timer could interrupt it), or it crashed, on: {json.dumps(case, default=repr)[:300]}",
+                          "expected": "the call returns or raises", "observed": "no return"})
+            sh_.notes["counts-of-the-other-shards-lost-because-the-pool-broke"] += 1
+            results = [("ok", sh_.to_dict())]
+    _collect_inflight()      # (remove this run's now empty in-flight files)
     bad = [r[1] for r in results if r[0] != "ok"]
     if bad:
         raise HarnessError("shard failed:\n" + bad[0])
@@ -415,7 +527,7 @@ def _main(prop, tier, seed, replay, t0) -> int:
         reps = b["cases"][: (2 if tier == "quick" else KEEP_PER_BUCKET)]
         for _size, case, failure in reps:
             mcase, mfailure = case, failure
-            if hasattr(mod, "minimise"):
+            if hasattr(mod, "minimise") and bucket != "stuck-or-crashed":
                 try:
                     mcase, mfailure = mod.minimise(case, failure, tier)
                 except Exception:  # noqa: BLE001 - minimisation is best effort
